@@ -3,16 +3,18 @@
    Depends on the model file only, so that it still extracts when a proof breaks. *)
 From Coq Require Import List ZArith Extraction ExtrOcamlBasic.
 From LMBase Require Import Res ListX IEEE.
-From LMDisc Require Import DiscModel DiscImplCheck DiscU8Kernel GenDiscU8 DiscHistory.
+From LMDisc Require Import DiscModel DiscSkel GenDiscSkel DiscImplCheck DiscU8Kernel GenDiscU8 DiscHistory.
 
 Definition f_of_bits : Z -> F32.t := F32.of_bits.
 Definition f_to_bits : F32.t -> Z := F32.to_bits.
 Definition f_is_finite : F32.t -> bool := F32.is_finite.
-Definition f_to_discrete := @to_discrete F32.t f32_ops.
+(* the discretisation functions the driver runs are built from the GENERATED statement skeleton (GenDiscSkel.v);
+   C08_skeleton_as_modelled: they are the functions of DiscModel.v *)
+Definition f_to_discrete := @skp_to_discrete F32.t f32_ops gen_skel.
 Definition f_min_score := @min_score F32.t f32_ops.
 Definition f_max_score := @max_score F32.t f32_ops.
-Definition f_scale_with := @scale_with F32.t f32_ops.
-Definition f_unscale_with := @unscale_with F32.t f32_ops.
+Definition f_scale_with := @skp_scale_with F32.t f32_ops gen_skel.
+Definition f_unscale_with := @skp_unscale_with F32.t f32_ops gen_skel.
 Definition f_real_score := @real_score F32.t f32_ops.
 Definition f_first_bad := @first_bad F32.t f32_ops.
 Definition f_check_C08 := @check_C08 F32.t f32_ops.
@@ -22,6 +24,7 @@ Definition f_d_data := @d_data F32.t.
 Definition f_d_factor := @d_factor F32.t.
 Definition f_d_offsets := @d_offsets F32.t.
 Definition f_d_offset := @d_offset F32.t.
+Definition sk_disc_score := skp_disc_score gen_skel.
 Definition z_sc_rows := @sc_rows Z.
 Definition z_sc_max := @sc_max Z.
 Definition z_sc_index := @sc_index Z.
@@ -31,7 +34,7 @@ Extraction "disc_model.ml"
   f_of_bits f_to_bits f_is_finite f_to_discrete f_min_score f_max_score f_scale_with f_unscale_with
   f_real_score f_first_bad f_check_C08 f_first_bad_impl f_check_C08_impl f32_le f_d_data f_d_factor f_d_offsets f_d_offset
   z_sc_rows z_sc_max z_sc_index
-  disc_score score_u8 score_rows_dispatch score_rows_avx2 striped configure_wrap_of
+  disc_score sk_disc_score score_u8 score_rows_dispatch score_rows_avx2 striped configure_wrap_of
   well_conditioned cond_bound cond_A factor_sign_clear
   score_rows_generic sat_add vk_score_rows run_u8_kernel arm4_of
   gen_avx2_u8 gen_neon_u8 gen_dispatch_u8_x86 gen_dispatch_u8_arm gen_pipeline_u8
